@@ -1747,6 +1747,9 @@ func c14Shapes(tier string) []c14Shape {
 		{kind: "aln", chars: full, n: 1, L: 2}, {kind: "aln", chars: full, n: 1, L: 3},
 		// reference-relative counters: (reference, sequence) pairs of equal length L
 		{kind: "ref", chars: "ACRYW-", L: 1}, {kind: "ref", chars: "ACRYW-", L: 2}, {kind: "reflen", chars: "AW-", L: 2},
+		// symbols that are no IUPAC code (stop, match character): identical on both sides they are no substitution
+		// (one such symbol at a time: whether '*' differs from '.' is not determined)
+		{kind: "ref", chars: "AC*", L: 1}, {kind: "ref", chars: "AC*", L: 2}, {kind: "ref", chars: "AC.", L: 1}, {kind: "ref", chars: "AC.", L: 2},
 		{kind: "aln", chars: full, n: 2, L: 2, prefix: 1},
 		{kind: "aln", chars: full, n: 4, L: 1, prefix: 1},
 		{kind: "ref", chars: "ACRYW-", L: 3, prefix: 1},
